@@ -62,7 +62,15 @@ def small_subjects(tier):
         ss = sorted(ss, key=lambda s: -codes.qubit_count(name, s))[:(1 if tier == 'quick' else 2)]
         for size in ss:
             vs = codes.deformation_variants(name)
-            for dn, kw in vs[:1] + vs[-1:] if len(vs) > 1 else vs:
+            if len(vs) > 1:
+                # the variant that really relabels qubits of this (small) lattice
+                code = codes.build(name, size)
+
+                def deformed_qubits(v):
+                    return sum(1 for row in dtable(code, v[0], v[1]) if row != ['X', 'Y', 'Z'])
+                best = max(vs[1:], key=deformed_qubits)
+                vs = vs[:1] + [best]
+            for dn, kw in vs:
                 out.append((name, size, dn, kw))
     return out
 
